@@ -661,6 +661,25 @@ def rule_page_start(ctx, R="C06/page-start"):
         if core(a[1]) == ("const", 1024 * 1024, "usize"):
             okb = True
     ctx.check(okb, R, "guard-distance", b.where(sat[0]) if sat else None, "the guard-page search is limited to 1 MiB above the stack pointer", "guard distance constant not found")
+    # ... and the walk cannot leave that window in one stride: every probe inside the loop is exactly one page beyond an address that
+    # passed the `<= sp_page + 1 MiB` test on the way (a stride to "the end of this mapping" carries the probe arbitrarily far past it)
+    inloop = [x for x, t in fm if any(x in body for body in b.loops().values())]
+    ctx.floor(R, "probes inside the guard walk", len(inloop), 1)
+    for k, x in enumerate(inloop):
+        addr = strip(o.call_args(x)[1])
+        while addr[0] in ("some", "okval") and len(addr) > 1:
+            addr = strip(addr[1])
+        step_ok = False
+        if addr[0] == "call" and addr[1].split("::")[-1] in ("checked_add", "saturating_add", "wrapping_add") and len(addr[2]) == 2:
+            base, inc = strip(addr[2][0]), strip(addr[2][1])
+            step_ok = inc == ("field", ("param", 1), "page_size") and base[0] == "phi" and any(isinstance(q, tuple) and q[0] == "loop" for q in base[1])
+        elif addr[0] == "bin" and addr[1] == "Add":
+            base, inc = strip(addr[2]), strip(addr[3])
+            step_ok = inc == ("field", ("param", 1), "page_size") and base[0] == "phi" and any(isinstance(q, tuple) and q[0] == "loop" for q in base[1])
+        dnf = conditions(b, x, origin=o, relevant=lambda a: a[0] == "bin" and a[1] in ("Le", "Lt") and any(q[0] == "call" and q[1].split("::")[-1] == "saturating_add" and core(q[2][1]) == ("const", 1024 * 1024, "usize") for q in walk(a)))
+        test_ok = bool(dnf) and all(any(v == 1 for (_, v) in c) for c in dnf)
+        ctx.check(step_ok and test_ok, R, ("guard-walk-step", k + 1), b.where(x), "each probe of the guard walk is one page beyond an address that passed the 1 MiB test",
+                  "the guard walk does not advance page by page under the 1 MiB test (probe at %s%s): a single stride can carry the search beyond the guard distance and take an unrelated mapping for the stack" % (show(addr)[:100], "" if test_ok else "; not under the distance test"))
     # returned start: stack_pointer if the mapping contains it else mapping.start; length = size - (start - mapping.start)
     cl = ctx.prog.closures_of(b)
     okc = False
@@ -727,3 +746,6 @@ def run(ctx):
     # the stream reaches the caller's file where the directory says, wherever in the destination the dump starts (rules/families.py)
     from rules import families as _famd
     _famd.destination(ctx, "C06")
+    # the small accessors and pass-through wrappers the rules above look through by name return what their names say (rules/accessors.py)
+    from rules import accessors as _acc
+    _acc.rule_accessors(ctx, "C06")
